@@ -195,10 +195,12 @@ def replay(ctx, fails, rec, val, rnd, fns):
 
 
 # ---------------------------------------------------------------- S2C: programs on object graphs (CtxHeap)
-HEAP_ACTIONS = ("DoInter", "DoDiff", "DoUpdRec", "DoUpdStr", "DoNested", "DoTouch")
+HEAP_ACTIONS = ("DoInter", "DoDiff", "DoUpdRec", "DoUpdStr", "DoNested", "DoTouch", "DoDiffR", "DoStrD")
 STEP_FN = {"inter": "intersection", "diff": "difference", "updrec": "update_recursively",
            "updvar": "update_recursively", "updstr": "update_recursively(string)", "nested": "update_nested",
-           "touch": "intersection"}
+           "touch": "intersection", "diffr": "difference", "strd": "str_to_dict"}
+RES_OPS = ("inter", "diffr", "strd")          # calls whose result becomes a dictionary of the caller (spec: ResOps)
+WRITES = ("touch", "updrec", "updvar", "updstr", "nested")
 
 
 def run_step(fns, env, c, val, rnd):
@@ -211,6 +213,20 @@ def run_step(fns, env, c, val, rnd):
         return res
     if op == "diff":
         return fns.difference(env[xs[0]], env[xs[1]], c["lv"])
+    if op == "diffr":
+        # the result is kept (and written into) by the caller: the arguments are private copies, because
+        # "d1 or some of its subdictionaries may be returned directly"
+        a, b = copy.deepcopy(env[xs[0]]), copy.deepcopy(env[xs[1]])
+        res = fns.difference(a, b, c["lv"]) if (c["lv"] != -1 or rnd.random() < 0.5) else fns.difference(a, b)
+        env.append(res)
+        return res
+    if op == "strd":
+        if c["vk"] == "value":
+            res = fns.str_to_dict(".".join(c["p"]), cl.decode(c["t"], val, rnd))
+        else:
+            res = fns.str_to_dict(".".join(c["p"]))
+        env.append(res)
+        return res
     if op == "updrec":
         return fns.update_recursively(env[xs[0]], cl.decode(c["t"], val, rnd))
     if op == "updvar":
@@ -245,9 +261,14 @@ def replay_program(fails, rec, val, rnd, fns):
     for i, e in enumerate(env):
         if cl.mismatches(cl.decode(cl_unfold(envd["roots"][i], envd["sv"]), val), e):
             raise core.MachineryError("CtxHeap environment built wrongly: %r" % (envd,))
+    producer = [None] * len(env)         # the call that returned the dictionary held in each variable
+    written = set()                      # results the caller has written into so far
     for j, c in enumerate(prog):
-        name = "%s[%s]" % (STEP_FN[c["op"]], tag)
         xs = [i - 1 for i in c["xs"]]
+        fn = STEP_FN[c["op"]]
+        if c["op"] == "touch" and producer[xs[0]]:
+            fn = STEP_FN[producer[xs[0]]]
+        name = "%s[%s]" % (fn, tag)
         try:
             res = run_step(fns, env, c, val, rnd)
         except Exception as exc:     # noqa
@@ -256,13 +277,28 @@ def replay_program(fails, rec, val, rnd, fns):
         want = obs[j]
         if len(env) != len(want["vals"]):
             raise core.MachineryError("CtxHeap: harness and specification disagree on the variables")
-        if c["op"] in ("inter", "diff"):
+        if c["op"] in RES_OPS:
+            producer.append(c["op"])
+        if c["op"] in WRITES and producer[xs[0]]:
+            written.add(xs[0])
+        if c["op"] in RES_OPS + ("diff",):
             exp = cl.decode(want["res"], val)
             mm = [(("<not a dictionary>",), "differs-kind")] if not isinstance(res, dict) else cl.mismatches(exp, res)
             if mm:
-                what = "result" if j == 0 or prog[j - 1]["op"] != "touch" else "result-after-earlier-result-was-changed"
+                what = "result-after-earlier-result-was-changed" if written else "result"
                 fails.add("%s:%s:%s" % (name, what, mm[0][1]), sz,
                           detail(j, expected=exp, observed=res, at=list(mm[0][0])))
+                return
+        if c["op"] in RES_OPS:
+            # the result is a new object of the caller: no dictionary the caller already holds (an earlier
+            # result, an argument) - spec: Reach(result) disjoint from everything reachable before
+            sh = cl.shared_mutables(res, env[:-1])
+            if sh:
+                earlier = [i for i in range(len(env) - 1) if cl.shared_mutables(res, [env[i]])]
+                what = ("result-is-a-dictionary-handed-out-before"
+                        if any(producer[i] for i in earlier) and not any(i in xs for i in earlier)
+                        else "not-a-deep-copy" if c["op"] == "inter" else "result-shares-a-dictionary-with-the-caller")
+                fails.add("%s:%s" % (name, what), sz, detail(j, result=res, shares_objects_with_variables=[i + 1 for i in earlier]))
                 return
         for i, e in enumerate(env):
             if cl.has_cycle(e):
@@ -274,8 +310,10 @@ def replay_program(fails, rec, val, rnd, fns):
                 continue
             if c["op"] == "touch":
                 # writing into the result reached something else: the result was not a deep copy
-                what = "not-a-deep-copy" if i != xs[0] else "result-shares-a-dictionary-with-itself-wrongly"
-            elif c["op"] == "inter" and i == len(env) - 1:
+                what = ("result-shares-a-dictionary-with-itself-wrongly" if i == xs[0]
+                        else "not-a-deep-copy" if producer[xs[0]] == "inter"
+                        else "writing-into-the-result-changed-another-dictionary")
+            elif c["op"] in RES_OPS and i == len(env) - 1:
                 what = "result:%s" % mm[0][1]
             elif i == xs[0] and c["op"] in ("updrec", "updvar", "updstr", "nested"):
                 what = "d-after:%s" % mm[0][1]
@@ -334,8 +372,39 @@ def chain_ok(other, key):
     return isinstance(d, dict)
 
 
+def scribble(rnd, res, keys, leaves):
+    """the caller treats a returned dictionary as its own: writes into it at a random depth (a new key, an
+    existing key overwritten, a key removed, everything marked).  The arguments of the call are never used
+    again, so whatever the result shares with them is not observed; every LATER call is validated by the trace
+    specification as the function of its own arguments."""
+    if not isinstance(res, dict):
+        return
+    x = rnd.random()
+    if x < 0.3:
+        cl.touch(res)
+        return
+    d = res
+    while rnd.random() < 0.5:
+        subs = [v for v in d.values() if isinstance(v, dict)]
+        if not subs:
+            break
+        d = rnd.choice(subs)
+    if x < 0.8 or not d:
+        d[rnd.choice(keys)] = rnd.choice(leaves)() if rnd.random() < 0.6 else {rnd.choice(keys): rnd.choice(leaves)()}
+    else:
+        del d[rnd.choice(sorted(d))]
+
+
+LAST_RESULT = [None]
+
+
 def record(fns, op, args, lv, key):
     """execute one call on the real code, return the trace record"""
+    rec, LAST_RESULT[0] = _record(fns, op, args, lv, key)
+    return rec
+
+
+def _record(fns, op, args, lv, key):
     enc = cl.Encoder()
     before = [enc.enc(a) for a in args]
     if op == "recon":
@@ -347,7 +416,7 @@ def record(fns, op, args, lv, key):
         res = call(fns, op, args, lv, key, False)
     return {"op": op, "lv": lv, "key": key, "args": before,
             "res": enc.enc(res) if isinstance(res, dict) else enc.enc({}),
-            "post": [enc.enc(a) for a in args]}
+            "post": [enc.enc(a) for a in args]}, res
 
 
 def random_trace(ctx, fails, fns, n):
@@ -356,6 +425,7 @@ def random_trace(ctx, fails, fns, n):
     leaves = leaf_pool()
     depth = 4 if ctx.thorough else 3
     trace = []
+    nscribbled = [0]
     for _ in range(n):
         a = cl.random_dict(rnd, keys, depth, leaves)
         b = mutate(rnd, a, keys, leaves, depth)
@@ -439,9 +509,14 @@ def random_trace(ctx, fails, fns, n):
         snap = copy.deepcopy(args)
         try:
             trace.append(record(fns, op, args, lv, key))
+            if op in ("inter", "diff", "recon") and rnd.random() < 0.4:
+                # results are the caller's objects: written into between calls (round 8)
+                scribble(rnd, LAST_RESULT[0], keys, leaves)
+                nscribbled[0] += 1
         except Exception as exc:     # noqa
             fails.add("%s:raised:%s" % (FN[op], exc_name(exc)), 10 ** 6,
                       {"call": FN[op], "level": lv, "key": key, "args": snap, "exception": repr(exc)})
+    ctx.extra["random_calls_whose_result_the_caller_wrote_into"] = nscribbled[0]
     return trace
 
 
@@ -504,10 +579,16 @@ def run(ctx):
         # ---- object level: sharing inside / between the arguments, histories of calls (CtxHeap)
         f_heap = jobs.submit(ctx.mc, "CtxHeap", "CtxHeap_%s.cfg" % tag, coverage=True, must_cover=HEAP_ACTIONS)
         f_hexp = [jobs.submit(ctx.export, "CtxHeap", "CtxHeap_%s_export_%s.cfg" % (tag, part), min_records=300)
-                  for part in ("sharing", "history")]
+                  for part in ("sharing", "history", "results")]
         # the explored universe must be able to tell wrong object-level algorithms from the right one
         guards = [("CtxHeap_guard_inplace.cfg", "the sharing universe does not refute narrowing the deep copy in place"),
-                  ("CtxHeap_guard_strcache.cfg", "the histories do not refute a str_to_dict that hands out a kept dictionary")]
+                  ("CtxHeap_guard_strcache.cfg", "the histories do not refute a str_to_dict that hands out a kept dictionary"),
+                  ("CtxHeap_guard_diffempty.cfg", "the result histories do not refute a difference that hands out one "
+                                                  "module-level empty dictionary for equal arguments"),
+                  ("CtxHeap_guard_interempty.cfg", "the result histories do not refute an intersection that hands out one "
+                                                   "module-level empty dictionary"),
+                  ("CtxHeap_guard_strdempty.cfg", "the result histories do not refute a str_to_dict('') that hands out one "
+                                                  "module-level empty dictionary")]
         f_guards = [jobs.submit(ctx.mc, "CtxHeap", g, workers=2, expect_violation="report") for g, _ in guards]
         # ---- the repository's own tests as a trace source (Split static context, Zip, group_plots ...)
         f_repo = jobs.submit(repo_job)
@@ -566,7 +647,8 @@ def run(ctx):
         for (g, msg), f in zip(guards, f_guards):
             if f.result().violated != "StepsOK":
                 raise core.MachineryError(msg)
-        ctx.extra["object_level_guards"] = "in-place narrowing and cached str_to_dict refuted by TLC (StepsOK)"
+        ctx.extra["object_level_guards"] = ("in-place narrowing, cached str_to_dict and a module-level empty dictionary "
+                                            "returned by difference / intersection / str_to_dict refuted by TLC (StepsOK)")
         f_mc.result()
         f_laws.result()
         cl.account_trace(ctx, tmod, trace, f_trace.result(),
